@@ -8,6 +8,7 @@ ID = "C03"
 LEVEL = "proof"
 COQ_HEADER = "From MiniMcmc Require Import Model.NUTSEval Model.FindEps."
 LMARK = -1000000011
+AMARK = -1000000017
 GMARK = -1000000013
 RULE = ("NUTSChain::step under the transition-trace hook (momentum, joint0, log u, eps, per doubling: direction uniform, every "
         "leaf with position/momentum/joint, every merge uniform, acceptance uniform) on Gaussians of dimension 1..8 with random "
@@ -135,6 +136,10 @@ def coq_term(case, out):
         runs = "; ".join("[" + "; ".join(C.zlist([len(db["merges"]) for db in tr["doublings"]]).replace("]", "]%nat")
                                            for tr in N.split_transitions(run["events"])) + "]" for run in out["runs"])
         t += " ++ [%s] ++ concat (map (nuts_run_kinds %s) [%s])" % (C.z(GMARK), C.natlit(len(case["init"])), runs)
+    rats = leaf_ratios(case, out)
+    if rats:
+        t += " ++ [%s] ++ %s %s" % (C.z(AMARK), "leaf_alphas32" if case["f"] == "f32" else "leaf_alphas64",
+                                    C.zlist([N.tbits(case["f"], r) for r, a in rats]))
     lv = leaf_samples(case, out)
     if lv:
         tg = case["target"]
@@ -145,6 +150,17 @@ def coq_term(case, out):
             "(nuts_leaf_eval %s %s [%s] [%s])" % (A, N.dy(e), "; ".join(q(b) for b in prev["position"]), "; ".join(q(b) for b in prev["momentum"]))
             for (e, prev, leaf) in lv)
     return t
+
+
+def leaf_ratios(case, out):
+    """(ratio, alpha) of every leaf of the usable transitions (both as emitted bit patterns)"""
+    res = []
+    for tr in [t for t in transitions(case, out) if usable(t) and not N.ambiguous(t, case["f"])]:
+        for db in tr["doublings"]:
+            for lf in db["leaves"]:
+                if "ratio" in lf:
+                    res.append((lf["ratio"], lf["alpha"]))
+    return res[:400]
 
 
 def leaf_samples(case, out):
@@ -193,6 +209,13 @@ def compare(case, out, model):
     if LMARK in model:
         k = model.index(LMARK)
         model, lm = model[:k], model[k + 1:]
+    if AMARK in model:
+        k = model.index(AMARK)
+        model, am = model[:k], model[k + 1:]
+        for j, ((r, a), m) in enumerate(zip(leaf_ratios(case, out), am)):
+            if N.tbits(case["f"], a) != m:
+                return ("leaf %d: acceptance ratio %r enters the acceptance statistic as %r; the rule (0 for a NaN ratio, else min(1, ratio)) "
+                        "gives %r" % (j, N.bf(r), N.bf(a), C.f32_bits_to_float(m) if case["f"] == "f32" else C.f64_bits_to_float(m)))
     if GMARK in model:
         k = model.index(GMARK)
         model, gm = model[:k], model[k + 1:]
